@@ -52,7 +52,9 @@ SITE = re.compile(r"\.unwrap\(\)|\.expect\(|unreachable!|panic!|\bassert!|debug_
 
 PANICKY = (r"\.unwrap\(\)|\.expect\(|unreachable!|panic!|\bassert!|\bassert_eq!|\bassert_ne!|debug_assert|todo!|unimplemented!|swap_remove|\.remove\(|split_at\(|"
            r"\.insert\(\s*[\w.]+\s*,|\.drain\(|split_off\(|\.swap\(|replace_range\(|step_by\(|\.chunks\(|\.windows\(|from_str_radix\(|borrow_mut\(|\.borrow\(\)|"
-           r"\.lock\(\)|copy_from_slice|clone_from_slice|\.truncate\(|_unchecked|process::exit|process::abort|\.write\(\)|\.read\(\)")
+           r"\.lock\(\)|copy_from_slice|clone_from_slice|\.truncate\(|_unchecked|process::exit|process::abort|\.write\(\)|\.read\(\)|"
+           r"sort(_unstable)?_by(_key)?\(|binary_search_by|select_nth|\.repeat\(|with_capacity\(|vec!\[[^\]]*;|char::from_digit\(|\.rotate_(left|right)\(|"
+           r"\.split_first\(\)\.unwrap|\.first\(\)\.unwrap|\.last\(\)\.unwrap")
 
 
 def panic_sites():
@@ -74,7 +76,8 @@ def panic_sites():
 
 ARITH = re.compile(r"(?<![=!<>&|+\-*/%^])\s(\+|-|\*|/|%|<<|>>)=?\s(?!=)|\bas\s+(u8|u16|u32|u64|u128|usize|i8|i16|i32|i64|i128|isize|f32|f64|Self::Float|Self::Int)\b|\.pow\(|\.abs\(\)|"
                    r"wrapping_|saturating_|overflowing_|unchecked_|\b(Add|Sub|Mul|Div|Rem|Neg|Shl|Shr)::(add|sub|mul|div|rem|neg|shl|shr)\b|\.(add|sub|mul|div|rem|neg|shl|shr)\(|"
-                   r"(^|[(,=\[{]|return|=>)\s*-\s*[A-Za-z_(*]|\.sum\(|\.product\(|\.try_into\(|::try_from\(")
+                   r"(^|[(,=\[{]|return|=>)\s*-\s*[A-Za-z_(*]|\.sum\(|\.product\(|\.try_into\(|::try_from\(|"
+                   r"ilog(2|10)?\(|_euclid\(|abs_diff\(|next_power_of_two|::abs\(|::pow\(|\.signum\(|isqrt\(")
 
 
 def arithmetic_sites():
@@ -96,6 +99,20 @@ def arithmetic_sites():
     return sites
 
 
+def new_sites(cur, base):
+    """sites of the current source that the baseline does not account for (multiset difference: a second copy of a
+    known line is a new site)"""
+    import collections
+    left = collections.Counter(tuple(x) for x in base)
+    out = []
+    for f, c in cur:
+        if left[(f, c)] > 0:
+            left[(f, c)] -= 1
+        else:
+            out.append("%s: %s" % (f, c))
+    return out
+
+
 def arithmetic_site_audit():
     base_path = os.path.join(L.ROOT, "tools", "arithmetic_sites.json")
     cur = arithmetic_sites()
@@ -103,8 +120,7 @@ def arithmetic_site_audit():
         base = json.load(open(base_path))
     except FileNotFoundError:
         return ["baseline tools/arithmetic_sites.json missing"], cur
-    bset = {tuple(x) for x in base}
-    return ["%s: %s" % (f, c) for f, c in cur if tuple(x for x in (f, c)) not in bset], cur
+    return new_sites(cur, base), cur
 
 
 def panic_site_audit():
@@ -114,9 +130,7 @@ def panic_site_audit():
         base = json.load(open(base_path))
     except FileNotFoundError:
         return ["baseline tools/panic_sites.json missing"], cur
-    bset = {tuple(x) for x in base}
-    new = [x for x in cur if tuple(x) not in bset]
-    return ["%s: %s" % (f, c) for f, c in new], cur
+    return new_sites(cur, base), cur
 
 
 if __name__ == "__main__":
